@@ -16,6 +16,14 @@ pub fn arg_val(args: &[String], name: &str) -> Option<String> {
         .and_then(|i| args.get(i + 1).cloned())
 }
 
+type ExtraFn = Box<dyn Fn(&Agg) -> serde_json::Value + Send + Sync>;
+static EXTRA: std::sync::Mutex<Option<ExtraFn>> = std::sync::Mutex::new(None);
+
+/// Registers a function that contributes property-specific keys to `coverage` in the evidence.
+pub fn set_extra_evidence(f: impl Fn(&Agg) -> serde_json::Value + Send + Sync + 'static) {
+    *EXTRA.lock().unwrap() = Some(Box::new(f));
+}
+
 pub struct PropMeta {
     pub level: &'static str,
     pub quick_secs: f64,
@@ -61,6 +69,22 @@ pub fn finish<H: Harness>(
                         println!("violation: {} [{}] {}", v.property, v.clause, v.detail);
                         println!("minimised scenario shape: {}", rf.shape);
                         println!("trace: {}", tp.display());
+                        // and once more in a fresh process: it must fail the same way there
+                        match std::env::current_exe().ok().map(|exe| {
+                            std::process::Command::new(exe)
+                                .args(["replay", &p.display().to_string(), "--quiet"])
+                                .stdout(std::process::Stdio::null())
+                                .stderr(std::process::Stdio::null())
+                                .status()
+                        }) {
+                            Some(Ok(st)) if st.code() == Some(1) => {
+                                println!("replay in a fresh process reproduced the violation");
+                            }
+                            other => {
+                                eprintln!("harness error: replay in a fresh process did not reproduce the violation ({:?})", other);
+                                return 2;
+                            }
+                        }
                         println!("VIOLATION property={} replay={}", v.property, p.display());
                         replay_path = Some(p);
                         code = 1;
@@ -84,11 +108,18 @@ pub fn finish<H: Harness>(
     for (p, what) in &r.known_hits {
         println!("KNOWN-FINDING: property={} {}", p, what);
     }
-    let extra = json!({
+    let mut extra = json!({
         "known_findings_hit": r.known_hits.iter().map(|(p, w)| format!("{p}: {w}")).collect::<Vec<_>>(),
         "replay": replay_path.as_ref().map(|p| p.display().to_string()),
         "workers": std::thread::available_parallelism().map(|n| n.get()).unwrap_or(0),
     });
+    if let Some(f) = EXTRA.lock().unwrap().as_ref() {
+        if let (Some(e), Some(more)) = (extra.as_object_mut(), f(&r.agg).as_object()) {
+            for (k, v) in more {
+                let _ = e.insert(k.clone(), v.clone());
+            }
+        }
+    }
     write_evidence(
         &vd.join("evidence").join(format!("{id}.json")),
         id,
